@@ -687,8 +687,11 @@ pub mod prelude {
         pub uninterp spec fn all(&self) -> Seq<Seq<u8>>;
         pub uninterp spec fn pos(&self) -> int;
 
+        /// `header.splitn(n, |c| c == sep1 || c == sep2).peekable()`; the model (splitn_spec) is the one for
+        /// the separators SP and CR, so the two characters the code passes are REQUIRED to be those
         #[verifier::external_body]
-        pub fn new(header: &'a str, n: usize) -> (r: Self)
+        pub fn new(header: &'a str, n: usize, sep1: char, sep2: char) -> (r: Self)
+            requires sep1 as u32 == 32u32, sep2 as u32 == 13u32,
             ensures r.all() == crate::spec::splitn_spec(sb(header), n as nat), r.pos() == 0
         { Parts(header.splitn(n, parts_is_sep as fn(char) -> bool).peekable()) }
 
